@@ -275,6 +275,18 @@ static void summary_statistics(unsigned long long& unit)
 					for(int i = 0; i < n; i++) t[i] = d[i] + 16.0;
 					if(!(std::fabs(Arithmetic_Mean(t) - (m + 16)) <= 8 * mc::U_ * 32) || !(std::fabs(Variance(t) - v) <= 32 * n * mc::U_ * (v + 64))) fail("summary", key, "translation_law_violated", "shift by 16");
 				}
+				// large translations (powers of two, the shifted data are exact): the variance may lose (u*shift)^2 through the
+				// rounded mean, never u*shift^2 (that is the cancellation of a sum-of-squares formula)
+				for(double sh : {1048576.0, -134217728.0, 8589934592.0, 1099511627776.0})
+				{
+					std::vector<double> t(n);
+					for(int i = 0; i < n; i++) t[i] = d[i] + sh;
+					double us = mc::U_ * std::fabs(sh);
+					double vt = Variance(t), mt = Arithmetic_Mean(t), st = Standard_Deviation(t);
+					if(!(std::fabs(mt - (m + sh)) <= 8 * us)) fail("summary", key, "translation_law_violated", "mean after shift by " + mc::dec(sh) + " = " + mc::dec(mt));
+					if(!(std::fabs(vt - v) <= 32 * n * mc::U_ * (v + 64) + 8 * n * us * us)) fail("summary", key, "translation_law_violated", "variance after shift by " + mc::dec(sh) + " = " + mc::dec(vt) + ", before " + mc::dec(v));
+					if(!(std::fabs(st - std::sqrt(vt)) <= 2 * mc::U_ * st) && !(vt == 0 && st == 0)) fail("summary", key, "standard_deviation_not_sqrt_variance", "sd " + mc::dec(st) + " after shift by " + mc::dec(sh));
+				}
 				// equal weights: plain mean, standard error s/sqrt(N)
 				for(double w : {1.0, 0.25, 4.0})
 				{
